@@ -20,6 +20,14 @@ CLAIMED = {
             "partial: C memory safety beyond the capacity invariant; little-endian host; fopen failure and truncated files are outside the property; n+chunk < 2^32 (row partition wrap needs >= 2^31 rows, not exercisable here)."),
     'C09': ("windows_spec, word_to_word_spec, ngrams_spec, stream_eq_contexts(_line), no_cross_context, create_document_eq_contexts, tokens_clean, no_overwrite, pattern_constants (regexes regenerated from the source); generated corpora x all option combinations vs the Lean driver, events compared in order.",
             "str.lower / str.strip whitespace tables and re for the three concrete patterns are Python-supplied per input; LF-freeness of tokens checked by the harness only."),
+    'C03': ("learn_append, chain_eq_single (any k-way split), dict_continue, dict_chain_two, dict_from_data_array, abs_extend (new labels in later parts), input_preserved_partial; chains of 2-4 real learner calls in one process over every split position and learner mix, compared exactly with the model's single pass; snapshots of every weights argument before/after.",
+            "partial: non-aliasing of the weights argument inside numpy/xarray/deepcopy cannot be modelled functionally and is decided only by the snapshot comparison of the differential run; Widrow-Hoff chains are covered under C08."),
+    'C07': ("splitOn_joinWith, parse_render (+ slice, general), freq_expand(_decimal), compatible_is_freq_one, forms_agree; event lists over a hostile Unicode alphabet x 4 containers x gzip/plain x compatible, frequency columns 0..5, input forms of ndl.ndl/dict_ndl cross-compared; F11 (CR in a token) reported as KNOWN-FINDING.",
+            "gzip and the UTF-8 codec are identity; Python's universal-newline layer is modelled (LF, CR, CRLF); int(frequency) modelled for canonical ASCII-digit literals."),
+    'C11': ("stride_perm, strided_sum (any commutative monoid), job_count_is_length, empty_slice_counts_zero, cues_outcomes_exact, n_jobs_irrelevant, word_counts_exact; event and corpus files x n_jobs 1..32 x lower_case vs the driver's direct count.",
+            "str.split()/strip()/lower() results are Python-supplied per input; Pool.starmap returns results in submission order."),
+    'C19': ("corpus_eq, gz_files_sorted, threads_independent, imap_any_arrival_order, not_found_listed, sort_total, sorted_unique, walk_order_irrelevant, no_overwrite(_not_found); generated subtitle trees with dangling links x n_threads, corpus and .not_found files compared byte for byte with the driver.",
+            "xml.etree, gzip and os.walk(followlinks=True) are trusted (the harness writes real gzip XML from the JSON tree); float time arithmetic exactly at the 5 s boundary only for whole-second times."),
     'C13': ("row_depends_only, rename_equivariant, cue_perm, affine, linear_part, lambda_homogeneous, beta2_zero, alpha_zero about rwLearn, transported to the implementations by C01; every law also run as a metamorphic relation between 2-3 runs of the real learners, exact in the dyadic domain.",
             "IEEE-754 rounding outside the exact-dyadic domain (2^-30 relative tolerance there)."),
 }
